@@ -243,7 +243,12 @@ U_C12 ==
                                         MvField(U1("c"), [kind |-> "shift", arg |-> SzField("a"), ref |-> "current-offset"])>>)],
            {0, 1, 2, 254, 255}, 5, {0, 1}),
      DeclP([C0 |-> Class(DefaultOpts, <<RepUntilF("r", RefF("e", "C1"), Lam(EBin("eq", EAttr(EIdx(EF("r"), EC(-1)), "x"), EC(0))), NoCond, 0)>>),
-            C1 |-> Class(DefaultOpts, <<U1("x"), DataF("d", SzField("x"))>>)], {0, 1, 2}, 6, {0})}
+            C1 |-> Class(DefaultOpts, <<U1("x"), DataF("d", SzField("x"))>>)], {0, 1, 2}, 6, {0}),
+     \* corrupted length fields: a signed length, a length expression that goes negative
+     DeclP([C0 |-> Class(DefaultOpts, <<U1("h"), RefF("s", "C1"), U1("t")>>),
+            C1 |-> Class(DefaultOpts, <<S1("n"), DataF("d", SzField("n")), U1("z")>>)], {0, 1, 2, 254, 255}, 5, {0, 1}),
+     DeclP([C0 |-> Class(DefaultOpts, <<U1("n"), DataF("d", Defer(EBin("sub", EF("n"), EC(2)))), DataF("e", Lam(EBin("sub", EF("n"), EC(3)))), U1("z")>>)],
+           {0, 1, 2, 3, 4}, 5, {0})}
 
 \* -------------------------------------------------------------------- C01 / C14
 \* mixed declarations; C01 leaves out what the property excludes (non-kept regex delimiters other
